@@ -10,7 +10,8 @@ T-step request:  `init=<sink|-> <t>.<r|->:<op>[:<a>[:<b>]] ...`
   reply: one result per op, space separated: `ok noop panic d<sink> ret<entry> none T F` (`-` for an empty script)
 
 Micro-step request: same line, with `<t>.<r|->:take` / `<t>.<r|->:dropPair` events (the two halves of a detach,
-  other operations in between); run by `Global.microRun`; `dropPair` has no result of its own.
+  other operations in between); run by `Global.microRun`; `dropPair` has no result of its own; the reply ends with `flush=ok` / `flush=violated`
+  (`Global.flushOrdered`: every observation of the detached state takes effect when no taken pair is still being flushed).
 
 T-trace request: `race closed=<0|1> trace=<t>.<k>.<0|1>,...|- written=<t>.<k>,...|-`
   reply: `accept` | `reject`   (`Global.raceAccept`, the predicate theorem `c17_race_accept` is about)
@@ -82,7 +83,8 @@ def handleStep (toks : List String) : String :=
       match opsS.mapM parseMicro with
       | some evs =>
         let rs := (microRun ⟨State.init init, []⟩ evs).2
-        if rs.isEmpty then "-" else " ".intercalate (rs.map resStr)
+        let fo := if flushOrdered ⟨State.init init, []⟩ evs then "flush=ok" else "flush=violated"
+        " ".intercalate (rs.map resStr ++ [fo])
       | none => "bad-op"
     | _, _ => "bad-op"
   | [] => "bad-op"
